@@ -1098,6 +1098,15 @@ func raceScripts(ctx *core.Ctx, bin string, seen map[string]int, stats map[strin
 			sb.WriteString("ARGV[" + strconv.Itoa(i+1) + "]")
 		}
 		sb.WriteString(")")
+		if strings.HasSuffix(kind, "SHA") {
+			// the same script called by hash: loaded on this connection first (idempotent)
+			sha, err := c.Do("SCRIPT", "LOAD", sb.String())
+			if err != nil || sha.IsErr() {
+				return
+			}
+			c.Do(append([]string{kind, sha.Str, "0"}, args...)...)
+			return
+		}
 		c.Do(append([]string{kind, sb.String(), "0"}, args...)...)
 	}
 	var wg sync.WaitGroup
@@ -1115,7 +1124,7 @@ func raceScripts(ctx *core.Ctx, bin string, seen map[string]int, stats map[strin
 			c.Timeout = 30 * time.Second
 			for i := 0; i < n; i++ {
 				id := ids[r.Intn(len(ids))]
-				kind := []string{"EVAL", "EVALNA"}[r.Intn(2)]
+				kind := []string{"EVAL", "EVALNA", "EVALSHA", "EVALNASHA"}[r.Intn(4)]
 				switch r.Intn(10) {
 				case 0, 1:
 					call(c, kind, "set", "scr", id, "field", "n", strconv.Itoa(i), "ex", "1000", "point", strconv.Itoa(r.Intn(50)), strconv.Itoa(r.Intn(50)))
@@ -1134,7 +1143,7 @@ func raceScripts(ctx *core.Ctx, bin string, seen map[string]int, stats map[strin
 				case 8:
 					call(c, kind, "set", "scr", id, "string", "v"+strconv.Itoa(i))
 				default:
-					call(c, []string{"EVALRO", "EVALNA"}[r.Intn(2)], "scan", "scr", "limit", "5")
+					call(c, []string{"EVALRO", "EVALNA", "EVALROSHA"}[r.Intn(3)], "scan", "scr", "limit", "5")
 				}
 			}
 		}(w)
